@@ -36,3 +36,33 @@ def report(ctx, eng, rule="PANIC", only_funcs=None, entry=None):
     for f in eng.analysed:
         R.fn(f)
     return n
+
+
+def check(ctx, entries, reach, rule="PANIC", modular=True, budget=300000):
+    """Modular PANIC pass: every handwritten function of `reach` (default: everything reachable from
+    `entries`) is analysed stand-alone with unconstrained arguments; calls to other members of the
+    set are not inlined (they are analysed on their own), small helpers outside the set are."""
+    from engine.interp import Budget, Engine
+
+    F, R = ctx.facts, ctx.report
+    if reach is None:
+        reach = sorted(p for p in ctx.cg.local_reachable(entries) if not F.body(p)["derived"])
+    members = set(reach)
+    eng = Engine(F, budget=budget)
+    eng.inline_filter = (lambda p: p not in members) if modular else None
+    n = 0
+    for p in reach:
+        b = F.body(p)
+        if b is None or b["derived"]:
+            continue
+        try:
+            eng.steps = 0
+            eng.call_path(p, eng.symbolic_args(b))
+            n += 1
+        except Budget as e:
+            R.violation(rule, p + "|budget", "analysis budget exceeded: %s" % e, function=p, kind="UNRECOGNISED-SHAPE")
+        except RecursionError:
+            R.violation(rule, p + "|recursion", "analysis recursion limit", function=p, kind="UNRECOGNISED-SHAPE")
+    R.extra["panic_functions_analysed"] = n
+    report(ctx, eng, rule, entry=entries[0] if entries else None)
+    return eng
